@@ -21,10 +21,10 @@ func init() {
 
 // reviewed: function/callee#ordinal -> reason
 var r09Dropped = map[string]string{
-	"rpc.builder.buildRequest/CopyReq#1":                "writer errors are sticky (R12.3/R12.6): the w.Build() that follows returns it",
-	"rpc.builder.buildResponse/Any#1":                    "writer errors are sticky: the w1.End() that follows returns it",
-	"rpc.Request.AddMessage/CopyInput#1":                 "writer errors are sticky: the call.End() that follows returns it",
-	"mpx.debugPrint/Println#1":                           "debug output",
+	"rpc.builder.buildRequest/CopyReq#1": "writer errors are sticky (R12.3/R12.6): the w.Build() that follows returns it",
+	"rpc.builder.buildResponse/Any#1":    "writer errors are sticky: the w1.End() that follows returns it",
+	"rpc.Request.AddMessage/CopyInput#1": "writer errors are sticky: the call.End() that follows returns it",
+	"mpx.debugPrint/Println#1":           "debug output",
 }
 
 // reviewed by callee: the reason lies in what is called, not in who calls it, so the site may move between functions.
